@@ -120,7 +120,6 @@ func (interp *Interpreter) gta(root *node, rpath, importPath, pkgName string) ([
 			// Package variables keep track of their declaration, for initialization ordering.
 			for _, c := range n.child[:n.nleft] {
 				if sym := sc.sym[c.ident]; sym != nil && sym.kind == varSym {
-					sym.global = true
 					sym.node = n
 				}
 			}
